@@ -18,6 +18,7 @@ LEAN_TARGET = "CxxModel.Props.C12"
 THEOREMS = ["Cxx.C12_fold_append", "Cxx.C12_extern_transparent", "Cxx.C12_open_split", "Cxx.C12_open_existing", "Cxx.C12_top_level_carries_only_doc",
             "Cxx.C12_keep_doxygen", "Cxx.C12_namespace_header", "Cxx.C12_extern_block_header", "Cxx.C12_toplevel_namespace", "Cxx.mainBody_item", "Cxx.C12_toplevel_namespace_opens", "Cxx.C12_toplevel_extern_opens", "Cxx.C12_toplevel_semicolon", "Cxx.interp_push_passing",
     "Cxx.C12_namespace_source",
+    "Cxx.C12_concatenation",
 ]
 ANCHORS = ["parser.py:CxxParser.parse", "parser.py:CxxParser._parse_declarations", "parser.py:CxxParser._parse_namespace",
            "parser.py:CxxParser._parse_extern", "parser.py:CxxParser._parse_template", "parser.py:CxxParser._parse_friend_decl",
@@ -30,7 +31,7 @@ RULE = ("pairs and triples of complete declaration sequences drawn from: the tes
         "access specifier) inside a class body; closed blocks of every kind followed by a documented declaration; expected = pure scope-wise merge of the individual results with B's anonymous ids "
         "shifted by the number A allocated; non-trivial = both sides contribute at least one declaration")
 CARRIED_BY = {
-    "the whole run on nested namespaces: parse() on `namespace N { body }`, body ANY item (further namespaces to any depth, sequences of any length), returns normally; after on_parse_start the callbacks are the namespace's start (child of the global namespace, carrying the written names), the body's callbacks inside it, and its end; the block stack ends as the global namespace alone": 'theorem C12_namespace_source (parse_source on Item.ns; Theorems/WholeParse.lean, ItemKinds.lean)',
+    "the whole run on nested namespaces: parse() on `namespace N { body }`, body ANY item (further namespaces to any depth, sequences of any length), returns normally; after on_parse_start the callbacks are the namespace's start (child of the global namespace, carrying the written names), the body's callbacks inside it, and its end; the block stack ends as the global namespace alone": 'theorems C12_namespace_source (parse_source on Item.ns; Theorems/WholeParse.lean, ItemKinds.lean), C12_concatenation (seq_concat: the callbacks of `xs ys` split into the group for xs and the group for ys, each constrained only by its own items and the enclosing block)',
     "one iteration of parse()'s own loop, on the regenerated rules / dispatch table / keep set: at `namespace n1::…::nk {` (after any comments and blank lines) it finds the doc text, opens one block with exactly the written names and that text, changes nothing else and hands NO doc text to the next iteration": "theorems C12_toplevel_namespace, mainBody_item (Theorems/TopLevel.lean)",
     "the same iterations down to the callback (active visitor that does not raise here): a namespace / extern header delivers exactly ONE start callback for a new block (fresh id, child of the innermost open block, the written names / linkage, the doc text found) and pushes exactly that block; a lone `;` changes nothing": "theorems C12_toplevel_namespace_opens, C12_toplevel_extern_opens, C12_toplevel_semicolon",
     "block headers end to end against the real token stream: `namespace n1::…::nk {` of any length opens ONE block carrying exactly the written names and changes nothing else of the parser state; `extern \"L\" {` outside a class opens one extern block with the written linkage": "theorems C12_namespace_header, C12_extern_block_header (Theorems/NsForm.lean, ExternForm.lean)",
